@@ -38,6 +38,13 @@ HasRef == "ref" \in DOMAIN T
 RecGroup(x, j) == {Msgs(x)[i].seq_out : i \in {i \in 1..Len(Msgs(x)) : Msgs(x)[i].seq_in = j}}
 SeqNums(g) == {g[i].seq : i \in 1..Len(g)}
 
+(* agreement of two recorded rows of the same (node, tick) from two runs: every field both runs logged must be equal
+   (the record's own episode counter is excluded; NA / empty window = not logged in that run) *)
+IntFields == {"seq", "sched", "tsmax", "start", "end", "delay", "ps", "endprev", "sent_seq", "sent_ts", "h", "rngi", "out_h"}
+RowsAgree(a, b) ==
+  /\ \A f \in IntFields : a[f] = NA \/ b[f] = NA \/ a[f] = b[f]
+  /\ \A x \in DOMAIN a.wins : a.wins[x] = <<>> \/ b.wins[x] = <<>> \/ a.wins[x] = b.wins[x]
+
 (* first failing clause of a sequence of <<ok, errrecord>> pairs *)
 FirstErr(cs) == LET bad == {i \in 1..Len(cs) : ~cs[i][1]} IN
                 IF bad = {} THEN NoErr ELSE cs[CHOOSE i \in bad : \A j \in bad : i <= j][2]
@@ -84,7 +91,7 @@ TChecks(n) ==
                ELSE IF m.delay # m.recv - m.sent THEN <<FALSE, Err("MsgDelayField", <<y, k>>, m.recv - m.sent, m.delay)>>
                ELSE <<TRUE, NoErr>>]
       refc == IF HasRef /\ k < Len(T.ref.steps[n])
-              THEN <<T.ref.steps[n][k + 1] = row, Err("Deterministic", at, T.ref.steps[n][k + 1], row)>>
+              THEN <<RowsAgree(T.ref.steps[n][k + 1], row), Err("Deterministic", at, T.ref.steps[n][k + 1], row)>>
               ELSE <<TRUE, NoErr>>
       refm == [y \in {y \in Outs(n) : Emit(n, y)} |->
                IF HasRef /\ k < Len(T.ref.msgs[y])
@@ -133,6 +140,9 @@ EEn(n) == ExecEnabled(n)
 
 RowWins(row, n) == [x \in Ins(n) |-> row.wins[x]]
 Executed(n, k) == ~(k \in SeqToSet(T.noexec[n]))
+Cancelled(n, k) == k \in SeqToSet(T.cancelled[n])
+(* position of tick k's rng in the split chain of the node's initial key: one split per executed tick *)
+RngIdx(n, k) == k - Cardinality({c \in SeqToSet(T.cancelled[n]) : c < k})
 
 EChecks(n) ==
   LET k == ke[n]
@@ -145,15 +155,15 @@ EChecks(n) ==
       rec == <<
         <<~rf.state \/ row.h = hcur[n], Err("RecordStateBefore", at, hcur[n], row.h)>>,
         <<~rf.inputs \/ RowWins(row, n) = wins, Err("RecordWindow", at, wins, row.wins)>>,
-        <<~rf.output \/ row.out_h = NA \/ row.out_h = hn, Err("RecordOutput", at, hn, row.out_h)>>,
-        <<~rf.rng \/ row.rngi = k, Err("RecordRngChain", at, k, row.rngi)>>
+        <<~rf.output \/ row.out_h = NA \/ (~Cancelled(n, k) /\ row.out_h = hn), Err("RecordOutput", at, hn, row.out_h)>>,
+        <<~rf.rng \/ row.rngi = RngIdx(n, k), Err("RecordRngChain", at, RngIdx(n, k), row.rngi)>>
       >>
       obs == IF n = cfg.sup /\ k < Len(T.obs)
              THEN LET o == T.obs[k + 1] IN <<
                <<o.seq = k, Err("ObservedSeq", at, k, o.seq)>>,
                <<o.ts = start, Err("ObservedTs", at, start, o.ts)>>,
                <<o.h = hcur[n], Err("ObservedState", at, hcur[n], o.h)>>,
-               <<o.rngi = k, Err("ObservedRng", at, k, o.rngi)>>,
+               <<o.rngi = RngIdx(n, k), Err("ObservedRng", at, RngIdx(n, k), o.rngi)>>,
                <<[x \in Ins(n) |-> o.wins[x]] = wins, Err("ObservedWindow", at, wins, o.wins)>> >>
              ELSE <<>>
       lg == IF T.flags.log /\ Executed(n, k)
@@ -164,7 +174,7 @@ EChecks(n) ==
                    <<e.ts = start, Err("StepTs", at, start, e.ts)>>,
                    <<e.h = hcur[n], Err("StepState", at, hcur[n], e.h)>>,
                    <<e.p = NodeC(n).p, Err("StepParams", at, NodeC(n).p, e.p)>>,
-                   <<e.rngi = k, Err("StepRng", at, k, e.rngi)>>,
+                   <<e.rngi = RngIdx(n, k), Err("StepRng", at, RngIdx(n, k), e.rngi)>>,
                    <<[x \in Ins(n) |-> e.wins[x]] = wins, Err("StepWindow", at, wins, e.wins)>>,
                    <<e.h_out = hn, Err("StepOutput", at, hn, e.h_out)>> >>
             ELSE <<>>
@@ -174,7 +184,7 @@ DoE(n) ==
   LET e == EChecks(n) IN
   IF e # NoErr
   THEN err' = e /\ UNCHANGED <<lawvars, tid, lp, done>>
-  ELSE /\ ExecStep(n)
+  ELSE /\ IF Cancelled(n, ke[n]) THEN SkipStep(n) ELSE ExecStep(n)
        /\ lp' = IF T.flags.log /\ Executed(n, ke[n]) THEN [lp EXCEPT ![n] = @ + 1] ELSE lp
        /\ UNCHANGED <<tid, err, done>>
 
